@@ -937,6 +937,7 @@ func init() {
 		}
 		thor := x.Tier == "thorough"
 		x.Add(&Family{Name: "crash-points", Quick: 1200, Thor: 12000, Run: func(c *Case) { c20Case(c, false) }})
+		x.Add(&Family{Name: "ack-implies-persisted", Quick: 150, Thor: 2500, Run: func(c *Case) { c20AckPersisted(c) }})
 		if thor {
 			x.Add(&Family{Name: "real-kill", Quick: 0, Thor: 400, Run: func(c *Case) { c20Case(c, true) }})
 		}
@@ -1432,6 +1433,195 @@ func c20Recovery(c *Case, r *RNG, work string, last c20Update, store string, ips
 	}
 	c.Dist("recovery/" + store)
 	return true
+}
+
+// ---------------------------------------------------------------- ack-implies-persisted
+
+func c20CopyDir(src, dst string) error {
+	return filepath.Walk(src, func(p string, info os.FileInfo, err error) error {
+		if err != nil {
+			return nil
+		}
+		rel, _ := filepath.Rel(src, p)
+		if info.IsDir() {
+			return os.MkdirAll(filepath.Join(dst, rel), 0755)
+		}
+		b, err := os.ReadFile(p)
+		if err != nil {
+			return nil
+		}
+		return os.WriteFile(filepath.Join(dst, rel), b, 0644)
+	})
+}
+
+func c20NewsPath(items ...string) []byte {
+	b := []byte{0, byte(len(items))}
+	for _, it := range items {
+		b = append(b, 0, 0, byte(len(it)))
+		b = append(b, it...)
+	}
+	return b
+}
+
+// c20AckPersisted: through the REAL handlers (direct mode).  The moment a handler hands back its (non-error) reply
+// the change it acknowledges must be in the config directory: a copy of the directory taken at that moment is
+// loaded with the real constructors and must show the change – a kill right after the acknowledgement loses nothing.
+func c20AckPersisted(c *Case) {
+	r := c.R
+	ts, err := newTS(TSOpt{Direct: true, Board: c20Token(r, r.Pick(0, 50, 2000))})
+	if err != nil {
+		panic(err)
+	}
+	defer ts.Close()
+	admin, _ := ts.DirectClient("admin", []byte("root"), "10.4.0.1:1000")
+	n := 2 + r.Intn(5)
+	var logins []string
+	var cats []string
+	snap := 0
+	for i := 0; i < n; i++ {
+		kind := r.Pick(0, 0, 1, 2, 3, 4, 5, 6)
+		var tr hotline.Transaction
+		var what string
+		var expect func(dir string, v map[string]string) string // "" = persisted
+		ip := ""
+		switch kind {
+		case 0: // disconnect + ban
+			ip = fmt.Sprintf("10.77.%d.%d", r.Intn(200), 1+r.Intn(200))
+			victim, _ := ts.DirectClient("guest", []byte("v"+c20Token(r, 3)), ip+":4000")
+			opt := byte(1 + r.Intn(2))
+			tr = mkTran(hotline.TranDisconnectUser, uint32(i+1), fld(hotline.FieldUserID, victim.ID[:]), fld(hotline.FieldOptions, []byte{0, opt}))
+			what = fmt.Sprintf("disconnect-and-ban(%s, option %d)", ip, opt)
+			expect = func(dir string, v map[string]string) string {
+				bf, err := mobius.NewBanFile(filepath.Join(dir, "Banlist.yaml"))
+				if err != nil {
+					return "ban list does not load: " + err.Error()
+				}
+				if b, _ := bf.IsBanned(ip); !b {
+					return "address " + ip + " is not in Banlist.yaml"
+				}
+				return ""
+			}
+		case 1: // new user
+			l := "n" + c20Token(r, 5)
+			logins = append(logins, l)
+			acc := c20AccessOf(c20RandAccess(r))
+			tr = mkTran(hotline.TranNewUser, uint32(i+1), fld(hotline.FieldUserLogin, hotline.EncodeString([]byte(l))),
+				fld(hotline.FieldUserName, []byte("N "+l)), fld(hotline.FieldUserPassword, []byte("pw")), fld(hotline.FieldUserAccess, acc[:]))
+			what = "new-user(" + l + ")"
+			expect = func(dir string, v map[string]string) string {
+				if !strings.Contains(v["accounts"], fmt.Sprintf("%q %q", l, "N "+l)) {
+					return "account " + l + " is not in Users/"
+				}
+				return ""
+			}
+		case 2: // delete user
+			if len(logins) == 0 {
+				continue
+			}
+			j := r.Intn(len(logins))
+			l := logins[j]
+			logins = append(logins[:j], logins[j+1:]...)
+			tr = mkTran(hotline.TranDeleteUser, uint32(i+1), fld(hotline.FieldUserLogin, hotline.EncodeString([]byte(l))))
+			what = "delete-user(" + l + ")"
+			expect = func(dir string, v map[string]string) string {
+				if strings.Contains(v["accounts"], fmt.Sprintf("%q ", l)) {
+					return "account " + l + " is still in Users/"
+				}
+				return ""
+			}
+		case 3: // new news category
+			name := "c" + c20Token(r, 4)
+			cats = append(cats, name)
+			tr = mkTran(hotline.TranNewNewsCat, uint32(i+1), fld(hotline.FieldNewsCatName, []byte(name)))
+			what = "new-news-category(" + name + ")"
+			expect = func(dir string, v map[string]string) string {
+				if !strings.Contains(v["news"], name) {
+					return "category " + name + " is not in ThreadedNews.yaml"
+				}
+				return ""
+			}
+		case 4: // post an article
+			if len(cats) == 0 {
+				continue
+			}
+			cat := cats[r.Intn(len(cats))]
+			title := "t" + c20Token(r, 6)
+			tr = mkTran(hotline.TranPostNewsArt, uint32(i+1), fld(hotline.FieldNewsPath, c20NewsPath(cat)), fld(hotline.FieldNewsArtID, []byte{0, 0, 0, 0}),
+				fld(hotline.FieldNewsArtTitle, []byte(title)), fld(hotline.FieldNewsArtDataFlav, []byte("text/plain")),
+				fld(hotline.FieldNewsArtData, []byte("body "+c20Token(r, 20))))
+			what = "post-article(" + cat + ", " + title + ")"
+			expect = func(dir string, v map[string]string) string {
+				if !strings.Contains(v["news"], title) {
+					return "article " + title + " is not in ThreadedNews.yaml"
+				}
+				return ""
+			}
+		case 5: // message board post
+			body := "b" + c20Token(r, 12)
+			tr = mkTran(hotline.TranOldPostNews, uint32(i+1), fld(hotline.FieldData, []byte(body)))
+			what = "board-post(" + body + ")"
+			expect = func(dir string, v map[string]string) string {
+				if !strings.Contains(v["board"], hex.EncodeToString([]byte(body))) {
+					return "the post is not in MessageBoard.txt"
+				}
+				return ""
+			}
+		default: // delete a news category
+			if len(cats) == 0 {
+				continue
+			}
+			j := r.Intn(len(cats))
+			name := cats[j]
+			cats = append(cats[:j], cats[j+1:]...)
+			tr = mkTran(hotline.TranDelNewsItem, uint32(i+1), fld(hotline.FieldNewsPath, c20NewsPath(name)))
+			what = "delete-news-item(" + name + ")"
+			expect = func(dir string, v map[string]string) string {
+				if strings.Contains(v["news"], name) {
+					return "category " + name + " is still in ThreadedNews.yaml"
+				}
+				return ""
+			}
+		}
+		res, _, pan := ts.Call(admin, tr)
+		// the acknowledgement is in hand: what a restart would find NOW
+		snap++
+		dir := filepath.Join(ts.Dir, fmt.Sprintf("at-ack-%d", snap))
+		c20CopyDir(ts.Cfg, dir)
+		if pan != nil {
+			c.Note("operation", what)
+			c.Note("panic", fmt.Sprint(pan))
+			c.Violation("handler-panics", "a persisting handler panicked")
+			return
+		}
+		acked := false
+		for _, t := range res {
+			if t.IsReply == 1 && t.ErrorCode == [4]byte{} {
+				acked = true
+			}
+		}
+		c.Dist(fmt.Sprintf("ack-persisted/kind=%d/acked=%v", kind, acked))
+		if !acked {
+			os.RemoveAll(dir)
+			continue
+		}
+		v, lerr := c20LoadValues(dir, nil)
+		if lerr != "" {
+			c.Note("operation", what)
+			c.Note("load_error", lerr)
+			c.Violation("state-does-not-load", "the config directory as it is when an update is acknowledged does not load: "+lerr)
+			return
+		}
+		if why := expect(dir, v); why != "" {
+			c.Note("operation", what)
+			c.Note("missing", why)
+			c.Note("users", v["accounts"])
+			c.Violation("acknowledged-before-persisted", "a change was acknowledged to the client before it was in the config directory ("+what+": "+why+"): a kill right after the acknowledgement loses it")
+			return
+		}
+		os.RemoveAll(dir)
+		c.Nontrivial(what)
+	}
+	c.Sample(map[string]any{"family": "ack-implies-persisted", "operations": n})
 }
 
 var _ = bytes.Equal
